@@ -41,9 +41,17 @@ class _SubroutineDeclByOption:
         try:
             yield
         finally:
-            cls._recorders.remove(recorder)
+            cls._drop_recorder(recorder)
             for decls, fp_option in recorder:
                 decls.option_map[fp_option] = None
+
+    @classmethod
+    def _drop_recorder(cls, recorder: list) -> None:
+        # by identity: `list.remove` compares by value and two empty recorders are equal
+        for index in range(len(cls._recorders) - 1, -1, -1):
+            if cls._recorders[index] is recorder:
+                del cls._recorders[index]
+                return
 
     def __init__(self, subroutine_def: "SubroutineDefinition") -> None:
         self.subroutine: SubroutineDefinition = subroutine_def
